@@ -118,6 +118,15 @@ DoBecomeLeader(n) ==
         /\ disp' = [disp EXCEPT ![n] = [st |-> "run", idx |-> l + 1, base |-> l, lost |-> FALSE]]
   /\ UNCHANGED <<up, rs, snap, first, ctl, blocked, pub, dead>>
 
+\* The controller loses the Raft leadership without dying (step-down, lost
+\* quorum, leadership transfer).  Nothing in the activity manager changes yet:
+\* its dispatcher keeps running until DoNoticeLost / DoDispatchExit; the same
+\* server may be elected again later (DoControllerChange) in the same process.
+DoStepDown(n) ==
+  /\ up[n] /\ ctl = n
+  /\ ctl' = None
+  /\ UNCHANGED <<rlog, up, lp, rs, snap, first, disp, blocked, pub, dead>>
+
 \* leadershipLost -> BecomeFollower closes leadershipLostCh of the old goroutine
 DoNoticeLost(n) ==
   /\ up[n] /\ ctl # n /\ disp[n].st # "off" /\ ~disp[n].lost
@@ -267,6 +276,11 @@ C18_ResumeAbove(floor) == \A q \in 1..Len(NewEvents) : NewEvents[q].id > floor
 
 \* model level: a dispatcher never publishes at or below the index it started from
 P_Publish(n) == disp[n].idx > disp[n].base /\ disp[n].base >= 0
+
+\* started with controller leadership: a controller whose promotion has run has a
+\* dispatcher goroutine (without one nothing committed under it is ever
+\* published - the finite-trace core of "at least once" for a stable controller)
+C18_ControllerDispatches == \A n \in Nodes : (ctl = n /\ up[n]) => disp[n].st # "off"
 
 TypeOK ==
   /\ \A i \in 1..Len(rlog) : rlog[i].k \in {"S", "E", "N", "P"}
